@@ -21,6 +21,7 @@ import (
 	"os"
 	"os/exec"
 	"path/filepath"
+	"strconv"
 	"strings"
 	"sync"
 	"sync/atomic"
@@ -152,6 +153,24 @@ func (v *victim) disarm() bool {
 	return err == nil && strings.HasPrefix(l, "disarmed")
 }
 
+// census asks the victim how many proxy goroutines exist (and for one of their stacks).
+func (v *victim) census() (int, string, bool) {
+	if _, err := fmt.Fprintln(v.in, "census"); err != nil {
+		return 0, "", false
+	}
+	l, err := v.readLine(20 * time.Second)
+	if err != nil || !strings.HasPrefix(l, "census ") {
+		return 0, "", false
+	}
+	f := strings.SplitN(l, " ", 3)
+	n, _ := strconv.Atoi(f[1])
+	st := ""
+	if len(f) > 2 {
+		st = f[2]
+	}
+	return n, st, true
+}
+
 func (v *victim) stop() {
 	fmt.Fprintln(v.in, "quit")
 	select {
@@ -187,15 +206,64 @@ func (v *victim) control(tag string) error {
 			hn = strings.ToLower(hn)
 		}
 		resp, err := s.Do("GET", "/control", "front.example", [][2]string{{hn, tag}}, nil, 15*time.Second)
-		s.Close()
 		if err != nil {
+			s.Close()
 			return fmt.Errorf("control request (%s) failed: %v", proto, err)
 		}
 		if resp.Status != 200 || string(resp.Body) != "backend:"+tag {
+			s.Close()
 			return fmt.Errorf("control request (%s) answered %d %q", proto, resp.Status, resp.Body)
+		}
+		// ... and an upload: request bodies go through process-wide buffer pools
+		n := []int{1, 700, 1024, 1500, 2048, 3000, 4096, 8192, 16384}[int(atomic.AddInt64(&controlBodyN, 1))%9]
+		resp, err = s.Do("POST", "/control-upload", "front.example", [][2]string{{hn, tag + "-up"}}, bytes.Repeat([]byte("u"), n), 15*time.Second)
+		s.Close()
+		if err != nil {
+			return fmt.Errorf("control upload of %d bytes (%s) failed: %v", n, proto, err)
+		}
+		if resp.Status != 200 || string(resp.Body) != "backend:"+tag+"-up" {
+			return fmt.Errorf("control upload of %d bytes (%s) answered %d %q", n, proto, resp.Status, resp.Body)
 		}
 	}
 	return nil
+}
+
+var controlBodyN int64
+
+// uploadsOfPoolSizes: a valid HTTP/2 session that uploads bodies whose sizes sit on and around the size
+// classes of the server's body-buffer pools (1, 2, 4, 8, 16 KiB), with and without content-length, in
+// one or several DATA frames.
+func uploadsOfPoolSizes(r *rand.Rand) []byte {
+	var b bytes.Buffer
+	b.WriteString(h2peer.ClientPreface)
+	b.Write(h2peer.RawFrame(4, 0, 0, []byte{0, 3, 0, 0, 0, 100, 0, 4, 0, 16, 0, 0}))
+	b.Write(h2peer.RawFrame(8, 0, 0, []byte{0, 16, 0, 0}))
+	sizes := []int{1024, 2048, 4096, 8192, 16384, 16384 + 2048, 2*16384 + 1024, 1025, 2047, 2049, 1536, 4095, 8193}
+	var hb bytes.Buffer
+	enc := hpack.NewEncoder(&hb)
+	for k, sid := 0, uint32(1); k < 1+r.Intn(4); k, sid = k+1, sid+2 {
+		n := sizes[r.Intn(len(sizes))]
+		hb.Reset()
+		fs := []hpack.HeaderField{{Name: ":method", Value: "POST"}, {Name: ":scheme", Value: "https"}, {Name: ":authority", Value: "front.example"}, {Name: ":path", Value: "/pool"}}
+		if r.Intn(3) != 0 {
+			fs = append(fs, hpack.HeaderField{Name: "content-length", Value: fmt.Sprint(n)})
+		}
+		for _, f := range fs {
+			enc.WriteField(f)
+		}
+		b.Write(h2peer.RawFrame(1, 4, sid, hb.Bytes()))
+		body := bytes.Repeat([]byte{'p'}, n)
+		for len(body) > 0 {
+			m := min(len(body), []int{16384, 2048, 1024, 1500, 1 + r.Intn(3000)}[r.Intn(5)])
+			fl := uint8(0)
+			if m == len(body) {
+				fl = 1
+			}
+			b.Write(h2peer.RawFrame(0, fl, sid, body[:m]))
+			body = body[m:]
+		}
+	}
+	return b.Bytes()
 }
 
 // controlBurst runs n control requests at once on fresh connections.
@@ -704,6 +772,9 @@ func main() {
 	for _, raw := range boundaryFrames() {
 		batched = append(batched, &tcase{Class: "post-handshake-bytes", Proto: "h2", raw: raw})
 	}
+	for i := run.Pick(60, 600); i > 0; i-- {
+		batched = append(batched, &tcase{Class: "post-handshake-bytes", Proto: "h2", raw: uploadsOfPoolSizes(rng)})
+	}
 	nfuzz := run.Pick(900, 40000)
 	for i := 0; i < nfuzz; i++ {
 		switch i % 3 {
@@ -738,6 +809,43 @@ func main() {
 				return
 			}
 			defer func() { v.stop() }()
+			baseline := func() (int, bool) { // after one served control client: the serve loops are up, nothing else is
+				if v.control("ctl-baseline") != nil {
+					return 0, false
+				}
+				n, ok := 0, false
+				for i := 0; i < 30; i++ {
+					time.Sleep(100 * time.Millisecond)
+					m, _, k := v.census()
+					if k && m == n && i > 2 {
+						return n, true
+					}
+					n, ok = m, k
+				}
+				return n, ok
+			}
+			base, baseOK := baseline()
+			// at the end of the worker every client has left: what served them must be gone too (a failure
+			// that leaves a goroutine and its TLS state behind per connection is not confined to it)
+			defer func() {
+				if !baseOK || !v.alive() {
+					return
+				}
+				var n int
+				var st string
+				for i := 0; i < 100; i++ {
+					var ok bool
+					if n, st, ok = v.census(); !ok || n <= base+2 {
+						break
+					}
+					time.Sleep(100 * time.Millisecond)
+				}
+				run.Add("end_of_worker_census_checks", 1)
+				if n > base+2 {
+					run.Violation("goroutines-left-behind", map[string]any{"baseline": base, "now": n, "write_scheduler": v.sched, "stack": st},
+						"worker %d: %d proxy goroutines remain in the victim 10 s after its last client left (baseline %d); one of them: %s", w, n, base, st[:min(len(st), 400)])
+				}
+			}()
 			restart := func() bool {
 				v.stop()
 				nv, err := startVictim(w, scheds[w])
@@ -747,6 +855,7 @@ func main() {
 				}
 				v = nv
 				run.Add("victim_restarts", 1)
+				base, baseOK = baseline()
 				return true
 			}
 			report := func(tc *tcase, what string) {
@@ -853,19 +962,36 @@ func main() {
 				}
 				tag := fmt.Sprintf("ctl-%d", atomic.AddInt64(&ctlN, 1))
 				run.Add("control_checks", 1)
-				if v.alive() && v.control(tag) == nil {
-					continue
+				var cerr error
+				if v.alive() {
+					if cerr = v.control(tag); cerr == nil {
+						continue
+					}
 				}
+				died := !v.alive()
 				// bisect by replaying the batch one case at a time
 				run.Add("batches_bisected", 1)
 				if !restart() {
 					return
 				}
+				attributed := false
 				for _, tc := range batch {
 					execCase(v, tc)
-					if !check(tc) && !v.alive() {
-						return
+					if !check(tc) {
+						attributed = true
+						if !v.alive() {
+							return
+						}
 					}
+				}
+				if !attributed {
+					// the failure is a fact even though no single case reproduces it alone
+					what := "the proxy process terminated"
+					if !died {
+						what = "the proxy no longer served other connections (" + cerr.Error() + ")"
+					}
+					run.Violation("after-batch-not-reproduced-by-single-case", map[string]any{"batch_first_case": describe(batch[0]), "batch_size": len(batch), "write_scheduler": v.sched},
+						"%s after a batch of %d concurrent cases (first: %s); replaying the cases one at a time on a fresh process did not reproduce it", what, len(batch), describe(batch[0]))
 				}
 			}
 		}(w)
